@@ -610,6 +610,10 @@ def _flatten_to_summary(facts, ft):
             t = strip(binds[v][1])
         if t.get("k") == "Call" and resolved(t) == "corgi::array::Array::sliced_op":
             od = peel(t["args"][4])
+            hops = 0
+            while var_of(od) and var_of(od) != dimv and var_of(od) in binds and binds[var_of(od)][0] == "let" and binds[var_of(od)][1] is not None and hops < 4:
+                od = peel(binds[var_of(od)][1])     # `let target = dimensions;` bound before the call
+                hops += 1
             if var_of(od) != dimv:
                 return False, "the reducing branch builds its result with output dimensions other than the target parameter"
             if lit_value(t["args"][6]) != 0:
